@@ -353,6 +353,22 @@ func constructPublicKeyFromCert(keyCert *key_certificate.KeyCertificate, data []
 	return pubKey, nil
 }
 
+// validateInlineKeySizes rejects key sizes that do not fit the fixed 384-byte key block
+// before any offset is derived from them: a signing key longer than 128 bytes (P521, RSA)
+// would otherwise make the padding offsets run past the padding buffer.
+func validateInlineKeySizes(pubKeySize, sigKeySize int) error {
+	if pubKeySize < 0 || pubKeySize > KEYS_AND_CERT_PUBKEY_SIZE {
+		return oops.Errorf("crypto key size %d exceeds inline capacity (%d bytes)", pubKeySize, KEYS_AND_CERT_PUBKEY_SIZE)
+	}
+	if sigKeySize > KEYS_AND_CERT_SPK_SIZE {
+		return oops.Errorf(
+			"signing key size %d exceeds inline capacity (%d bytes); excess certificate data reconstruction not implemented",
+			sigKeySize, KEYS_AND_CERT_SPK_SIZE,
+		)
+	}
+	return nil
+}
+
 // extractPaddingFromData extracts padding bytes based on key sizes.
 // The padding consists of two regions in the 384-byte block:
 //   - Public key field padding: bytes after the start-aligned crypto key in the 256-byte field
@@ -430,6 +446,9 @@ func ReadKeysAndCert(data []byte) (*KeysAndCert, []byte, error) {
 
 	pubKeySize := keyCert.CryptoSize()
 	sigKeySize := keyCert.SigningPublicKeySize()
+	if err := validateInlineKeySizes(pubKeySize, sigKeySize); err != nil {
+		return nil, remainder, err
+	}
 	padding := extractPaddingFromData(data, pubKeySize, sigKeySize)
 
 	sigKey, err := constructSigningKeyFromCert(keyCert, data, sigKeySize)
@@ -605,6 +624,9 @@ func readKeysAndCertNonKeyCert(rawData []byte, certType int) (*KeysAndCert, []by
 
 	sigKeySize := keyCert.SigningPublicKeySize()
 	pubKeySize := keyCert.CryptoSize()
+	if err := validateInlineKeySizes(pubKeySize, sigKeySize); err != nil {
+		return nil, remainder, err
+	}
 	padding := extractPaddingFromData(rawData, pubKeySize, sigKeySize)
 
 	sigKey, err := constructSigningKeyFromCert(keyCert, rawData, sigKeySize)
